@@ -7,9 +7,10 @@ import G9.Driver.Wire
 import G9.Driver.Logger
 import G9.Driver.SrvSeq
 import G9.Driver.Frame
+import G9.Driver.Ufs
 open G9 G9.Driver
 
-def handlers : List (String → List String → Option String) := [wire, logger, srvseq, frames]
+def handlers : List (String → List String → Option String) := [wire, logger, srvseq, frames, ufs]
 
 def answer (line : String) : String :=
   match (line.trimAscii.toString.splitOn " ").filter (· ≠ "") with
